@@ -345,6 +345,31 @@ let codec_case (line : string) : string =
             | HErr e -> "model-err " ^ eerr_str e
             | HTooManyAtoms n -> "model-toomany " ^ udec_of_n n)
        | _ -> failwith "hdrchk")
+  | "sndchk" ->
+      (* model-only: a history of headers of the spec sender, `<long> <entry>.. || <header hex> || <atom hex>,..` per message
+         joined by " ;; ": does the sender model emit these header bytes and mean these atoms? entry = N:seg:idx:hex | O:seg:idx *)
+      let msgs = Str.split (Str.regexp_string " ;; ") rest in
+      let bytes_of_hex h = if h = "_" then [] else bytes_of_hex h in
+      let parse_entry tok = match String.split_on_char ':' tok with
+        | ["N"; s; i; h] -> ENew (n_of_int (int_of_string s), n_of_int (int_of_string i), bytes_of_hex h)
+        | ["O"; s; i] -> EOld (n_of_int (int_of_string s), n_of_int (int_of_string i))
+        | _ -> failwith "sndchk entry" in
+      let rec go k sc = function
+        | [] -> "match"
+        | m :: r ->
+            (match Str.split_delim (Str.regexp_string " || ") m with
+             | [hd; hx; at] ->
+                 let toks = words hd in
+                 let long = (List.hd toks = "1") in
+                 let es = List.map parse_entry (List.tl toks) in
+                 let want_atoms = if at = "-" then [] else List.map bytes_of_hex (String.split_on_char ',' at) in
+                 if sender_header es long <> bytes_of_hex hx then Printf.sprintf "MISMATCH header of message %d model=%s" k (hex_of_bytes (sender_header es long))
+                 else (match meant sc es with
+                       | Some l when l = want_atoms -> go (k + 1) (List.fold_left push sc es) r
+                       | Some _ -> Printf.sprintf "MISMATCH atoms meant by message %d" k
+                       | None -> Printf.sprintf "MISMATCH message %d refers to an empty slot" k)
+             | _ -> failwith "sndchk") in
+      go 0 [] msgs
   | "dect" -> (match words rest with
                | h :: tl ->
                    (match bytes_of_hex h with
